@@ -13,16 +13,28 @@ from props import units_main as UM
 CLASSIFY = Query('value_classify', 'harness', UM.unit_value_ctor, 'h_valuector', defines=['VERIF_ITEM_CAP=16', 'VERIF_SCRIPT_CAP=26', 'VERIF_TOKEN_CAP=5'], unwind=30, timeout=2400, object_bits=10,
                  functions=['value.h: Value::Value(const char*, size_t, bool) (plain tokens)', 'util/strencodings.cpp: TryHex, HexDigit, p_util_hexdigit'],
                  bounded='one plain token of at most 5 characters (no whitespace, brackets or parentheses); atoll / snprintf are assumed libc models (stubs/libc_num.h); GetOpCode is an oracle; bracketed sub-scripts, inline functions and 0b literals are outside')
-QUERIES = [CLASSIFY, PREFIX, q('enc_data', 'h_enc_data', 80), q('enc_minimal', 'h_enc_minimal', 80), q('enc_int', 'h_enc_int', 16), q('enc_opcode', 'h_enc_opcode', 16),
+FNAMES = ['debugger/script.cpp: GetOpCode (opcode-name table, OP_ prefix, OP_xNN escape)', 'util/strencodings.cpp: IsHex, HexDigit']
+NAMEQ = [Query(f'opnames_{k}', 'harness', UM.unit_getopcode, 'h_getopcode_names', defines=[f'H_CHUNK={k}'], unwind=204, timeout=900, functions=FNAMES) for k in range(8)]
+NAMEQ += [Query('opnames_escape', 'harness', UM.unit_getopcode, 'h_getopcode_escape', defines=['H_CHUNK=99'], unwind=204, timeout=900, functions=FNAMES),
+          Query('opnames_unknown', 'harness', UM.unit_getopcode, 'h_getopcode_unknown', defines=['H_CHUNK=99'], unwind=204, timeout=900, functions=FNAMES)]
+LITERALS = Query('value_long_literals', 'harness', UM.unit_value_ctor, 'h_valuector_literals', defines=['VERIF_ITEM_CAP=16', 'VERIF_SCRIPT_CAP=26', 'VERIF_TOKEN_CAP=24'], unwind=30, timeout=1200, object_bits=10,
+                 functions=['value.h: Value::Value(const char*, size_t, bool) (integer-literal branch)'], bounded='eleven CONCRETE boundary literals of 10..20 characters (sampling, not a proof: the symbolic 19-digit query does not finish)')
+from props import units_tok as UTK
+def _tok(n, tier):
+    return Query(f'tokenise_n{n}', 'harness', UTK.unit_tokenise, 'h_tokenise', defines=[f'VERIF_TOK_N={n}'], unwind=n + 4, timeout=3000, object_bits=10, tier=tier,
+                 functions=['value.h: Value::parse_args(const char*, size_t) (tokeniser: whitespace, # comments, bracket groups)'],
+                 bounded=f'every input of at most {n} characters over the alphabet letter / [ / ] / space / # / newline (nested data-dependent loops: no invariant proof)')
+TOKENISE = _tok(7, 'quick')
+QUERIES = NAMEQ + [CLASSIFY, LITERALS, TOKENISE, _tok(9, 'thorough'), PREFIX, q('enc_data', 'h_enc_data', 80), q('enc_minimal', 'h_enc_minimal', 80), q('enc_int', 'h_enc_int', 16), q('enc_opcode', 'h_enc_opcode', 16),
            q('enc_data', 'h_enc_data', 130, 'thorough', 6000), q('enc_minimal', 'h_enc_minimal', 130, 'thorough', 6000)]
 META = {'level': 'proof', 'trusted_base': TRUSTED + ['stubs/enc_env.h: CScript as byte vector with end()-insert, WriteLE16/32 on a little-endian target'],
  'assumptions': ASSUME_COMMON + [
    "claimed: the encoding half - an already classified token (opcode / integer / data) is appended as the exact minimal encoding, for all int64 and all opcode bytes; data tokens up to the stated length",
-   "token classification Value(const char*): decided for plain tokens of at most 5 characters with assumed libc models (value_classify); beyond that not applicable: (parse_args, GetOpCode: atoll / snprintf / strndup / VLAs / a 150-way strcmp chain are libc string semantics outside the verifier's reach; bracketed sub-scripts reduce to a data token holding the compiled body (that reduction is inside the constructor, not covered)",
+   "token classification Value(const char*): decided for plain tokens of at most 5 characters with assumed libc models (value_classify); the opcode-name table GetOpCode is proved for all 114 names in both spellings, the OP_xNN escape and a set of unknown names (opnames_*); beyond that not applicable: (parse_args: atoll / snprintf / strndup / VLAs / a 150-way strcmp chain are libc string semantics outside the verifier's reach; bracketed sub-scripts reduce to a data token holding the compiled body (that reduction is inside the constructor, not covered)",
  ],
  'explanation': 'contracts on the real Value::operator>> and CScript push encoders against the minimal-push grammar; lemma: decode(assembled push) = bytes and the interpreter\'s real CheckMinimalPush accepts it'}
 MANIFEST = {
- 'text': 'Encoding half of btcc: for every opcode byte, every int64 and every data string (bytes exact for 0..80 quick / 0..130 thorough; push prefix and total length exact for every length up to 70,000) the real Value::operator>> / CScript::operator<< / push_int64 / CScriptNum::serialize append exactly the minimal encoding - one opcode byte; OP_0 / OP_1NEGATE / OP_1..16 or a direct push of the minimal script number; the minimal-form push that places exactly the given bytes on the stack - leave earlier bytes untouched, and every emitted push decodes back to the bytes and passes the interpreter\'s real CheckMinimalPush.',
- 'note': 'Token classification and the tokeniser are not applicable (libc string functions); payload bytes beyond the storage bound are modelled by length only.',
+ 'text': 'Tokeniser: for every input of up to 7 characters over letter / [ / ] / space / # / newline the tokens are exactly the maximal separator-free runs, bracket groups atomic (nesting counted), # comments dropped to the end of the line, unclosed groups rejected. Opcode names: every one of the 114 opcode names, with and without OP_, resolves to its protocol byte, OP_xNN to NN, unknown names to none. Literal classification for plain tokens of up to 5 characters. Encoding half of btcc: for every opcode byte, every int64 and every data string (bytes exact for 0..80 quick / 0..130 thorough; push prefix and total length exact for every length up to 70,000) the real Value::operator>> / CScript::operator<< / push_int64 / CScriptNum::serialize append exactly the minimal encoding - one opcode byte; OP_0 / OP_1NEGATE / OP_1..16 or a direct push of the minimal script number; the minimal-form push that places exactly the given bytes on the stack - leave earlier bytes untouched, and every emitted push decodes back to the bytes and passes the interpreter\'s real CheckMinimalPush.',
+ 'note': 'Token classification beyond 5-character plain tokens, tokeniser inputs beyond 7 (9) characters, the compilation of bracketed sub-scripts inside the Value constructor and inline functions are not applicable (libc string functions); payload bytes beyond the storage bound are modelled by length only.',
  'technique': 'assume/assert contracts on the real encoders sliced from value.h / script.h against a grammar-level spec, plus a decode/CheckMinimalPush lemma; CBMC',
  'design_ref': 'DESIGN.md 6 (C07)'}
